@@ -666,6 +666,7 @@ func runC04(c *Ctx) {
 		p := ix.proverFor(rtl)
 		cells := rtl.Params[1]
 		okCols, okCopy, okBlank := false, false, false
+		nOther := 0
 		eachInstr(rtl, func(in ssa.Instruction) {
 			st, isSt := in.(*ssa.Store)
 			if !isSt {
@@ -693,7 +694,12 @@ func runC04(c *Ctx) {
 					sc, sl := twoLevelIndex(p, u.X)
 					if dl != "" && dl == sl && dc == sc {
 						okCopy = true
+						return
 					}
+				}
+				if dl != "" {
+					nOther++
+					r.Check("R04.2", FuncName(rtl), fmt.Sprintf("slot store #%d is the cell's own line or a blank", nOther), st.Pos(), false, "a slot of line l, column c receives something other than line l of cell c or the blank record")
 				}
 			}
 		})
